@@ -21,12 +21,14 @@ import (
 	"github.com/emitter-io/emitter/internal/network/mqtt"
 	"github.com/emitter-io/emitter/internal/security"
 	"github.com/emitter-io/emitter/internal/service"
+	"github.com/emitter-io/emitter/internal/verifyield"
 )
 
 // Publish publishes a message to everyone and returns the number of outgoing bytes written.
 func (s *Service) Publish(m *message.Message, filter func(message.Subscriber) bool) (n int64) {
 	size := m.Size()
 	for _, subscriber := range s.trie.Lookup(m.Ssid(), filter) {
+		verifyield.Point("pubsub.Publish:next")
 		subscriber.Send(m)
 		if subscriber.Type() == message.SubscriberDirect {
 			n += size
